@@ -187,6 +187,14 @@ func init() {
 		}
 		return "", nil
 	}
+	replayers["real16"] = func(rep map[string]interface{}) (string, error) {
+		scratch, err := os.MkdirTemp("/dev/shm", "pogverif-replay-")
+		if err != nil {
+			return "", err
+		}
+		defer os.RemoveAll(scratch)
+		return strings.ReplaceAll(c16Real(fmt.Sprint(rep["fs"]), filepath.Join(scratch, "db"), int(numField(rep, "pre")), 16, int(numField(rep, "vlen"))), scratch, "<scratch>"), nil
+	}
 	replayers["panic"] = replayers["word"]
 	replayers["slice14"] = func(rep map[string]interface{}) (string, error) {
 		base, err := explore.GetBase(fmt.Sprint(rep["base"]), cfgByName(fmt.Sprint(rep["cfg"])), 0)
